@@ -46,11 +46,15 @@ func (k SettlementKeeper) settleUTXRs(ctx sdk.Context, tenantId uint64) error {
 			break
 		}
 
-		valid, err := k.tryPayout(ctx, tenantId, &utxr)
+		// pay on a branch of the state: a payout that fails half-way must leave nothing behind,
+		// otherwise the recipients already paid are paid again when the record is retried
+		payoutCtx, writePayout := ctx.CacheContext()
+		valid, err := k.tryPayout(payoutCtx, tenantId, &utxr)
 		if err != nil {
 			logger.Error("failed to payout", "tenant", tenantId, "recipient", utxr.Recipients, "amount", utxr.Amount.String(), "error", err)
 			break
 		}
+		writePayout()
 
 		if valid {
 			if err := ctx.EventManager().EmitTypedEvents(&types.EventSettled{
